@@ -50,7 +50,7 @@ func c20Gen(t *verifrt.Tape) (*c20Scenario, *Config) {
 	cfg.Engine = "On"
 	cfg.ReqAccess = true
 	cfg.RespAccess = t.Draw(2) == 0
-	cfg.ReqLimit = 200 + t.Draw(200)
+	cfg.ReqLimit = 40 + t.Draw(360)
 	cfg.ReqMem = 1 + t.Draw(24)
 	cfg.ReqReject = t.Draw(2) == 0
 	cfg.UploadDir = simos.Root + "/upload"
